@@ -612,7 +612,11 @@ func (r *rewriter) accessList(list []ast.Stmt) []ast.Stmt {
 			}
 			return true
 		})
-		for _, a := range shallowAccesses(st) {
+		accs := shallowAccesses(st)
+		if r.pkg == "neat" {
+			accs = append(accs, paramsAccesses(st)...)
+		}
+		for _, a := range accs {
 			kind := "R"
 			if a.write {
 				kind = "W"
@@ -647,6 +651,98 @@ func (r *rewriter) accessClauses(b *ast.BlockStmt) {
 			cc.Body = r.accessList(cc.Body)
 		}
 	}
+}
+
+// paramsAccesses (package neat only): element reads and writes of a trait's parameter array,
+// reported with the SLICE as object, so that the monitor keys them by the backing array - two traits
+// that share one array (a shallow copy) are the same object to it.
+func paramsAccesses(st ast.Stmt) []access {
+	var res []access
+	seen := map[string]bool{}
+	addP := func(se *ast.SelectorExpr, write bool) {
+		var buf bytes.Buffer
+		_ = printer.Fprint(&buf, token.NewFileSet(), se)
+		k := buf.String()
+		if write {
+			k += "W"
+		}
+		if seen[k] {
+			return
+		}
+		seen[k] = true
+		res = append(res, access{base: se, field: "trait parameter array", write: write})
+	}
+	asParams := func(e ast.Expr) *ast.SelectorExpr {
+		if se, ok := e.(*ast.SelectorExpr); ok && se.Sel.Name == "Params" {
+			return se
+		}
+		return nil
+	}
+	elem := func(e ast.Expr) *ast.SelectorExpr {
+		if ix, ok := e.(*ast.IndexExpr); ok {
+			return asParams(ix.X)
+		}
+		return nil
+	}
+	var scan func(n ast.Node)
+	scan = func(n ast.Node) {
+		if n == nil {
+			return
+		}
+		ast.Inspect(n, func(n ast.Node) bool {
+			switch x := n.(type) {
+			case *ast.FuncLit, *ast.BlockStmt:
+				return false
+			case *ast.IndexExpr:
+				if se := elem(x); se != nil {
+					addP(se, false)
+				}
+			case *ast.CallExpr:
+				if id, ok := x.Fun.(*ast.Ident); ok && id.Name == "copy" && len(x.Args) == 2 {
+					if se := asParams(x.Args[0]); se != nil {
+						addP(se, true)
+					}
+					if se := asParams(x.Args[1]); se != nil {
+						addP(se, false)
+					}
+				}
+			}
+			return true
+		})
+	}
+	switch s := st.(type) {
+	case *ast.AssignStmt:
+		for _, l := range s.Lhs {
+			if se := elem(l); se != nil {
+				addP(se, true)
+			} else {
+				scan(l)
+			}
+		}
+		for _, rh := range s.Rhs {
+			scan(rh)
+		}
+	case *ast.IncDecStmt:
+		if se := elem(s.X); se != nil {
+			addP(se, true)
+		}
+	case *ast.ExprStmt:
+		scan(s.X)
+	case *ast.ReturnStmt:
+		for _, e := range s.Results {
+			scan(e)
+		}
+	case *ast.IfStmt:
+		if s.Init != nil {
+			res = append(res, paramsAccesses(s.Init)...)
+		}
+		scan(s.Cond)
+	case *ast.RangeStmt:
+		if se := asParams(s.X); se != nil {
+			addP(se, false)
+		}
+	}
+	return res
 }
 
 // shallowAccesses lists the anchored-field accesses made by the parts of st that
